@@ -94,6 +94,16 @@ def check_fn_ok(facts, f):
     for n in walk(f["body"]):
         if n.get("k") == "Call" and str(n["f"].get("path", "")).endswith("::Ok") and n["args"]:
             if is_rest_empty_test(n["args"][0], rests):
+                # a checker that parses with a production larger than the stored language has to cut it down: text is checked
+                # with `content` (CharData? ((element | Reference | CDSect | PI | Comment) CharData?)*), so the parsed content
+                # must have no child cell at all - excluding some kinds only lets <!--c-->, <?p?> or <![CDATA[..]]> through
+                if "xml_parser::content" in set(rests.values()):
+                    none_at_all = any(m.get("k") == "MethodCall" and m["m"] == "is_empty" and
+                                      any(x.get("k") == "Field" and x.get("name") == "children" for x in walk(m.get("recv", {})))
+                                      for m in walk(n["args"][0]))
+                    if not none_at_all:
+                        return False, "text is parsed as `content` but the result is not required to have no children (children.is_empty()): " \
+                                      "markup such as a comment, PI or CDATA section inside the new text is stored as text"
                 return True, sorted(set(rests.values()))[0]
     return False, "result does not depend on rest.is_empty()"
 
